@@ -3,3 +3,5 @@ import PncProofs.C20
 import PncProofs.InterpLemmas
 import PncProofs.SigmaLemmas
 import PncProofs.C17
+import PncProofs.Val2idxLemmas
+import PncProofs.C16
